@@ -45,7 +45,14 @@ try:
             res["checks"][cid] = {"exit": rc, "lines": lines[:8]}
             if rc != 0:
                 keep = os.path.join(d, "alarm_%s.txt" % cid)
-                open(keep, "w").write(out[-6000:])
+                txt = out[-6000:]
+                import re, glob
+                for rp in re.findall(r"replay=(\S+)", out)[:3]:
+                    try:
+                        txt += "\n== %s\n%s" % (rp, open(rp).read()[:3000])
+                    except OSError:
+                        pass
+                open(keep, "w").write(txt)
     else:
         res["error"] = out[-500:]
 finally:
